@@ -28,3 +28,14 @@ Proof.
     destruct (negb (str_eqb scheme [])); destruct (negb (str_eqb query [])); destruct (negb (str_eqb fragment []));
     cbn [app]; rewrite <- ?app_assoc; reflexivity.
 Qed.
+
+(** make_netloc of yarl/_parse.py, re-translated as a decision tree (every test narrows the
+    Optional it tests), is the hand-written model *)
+Theorem gen_make_netloc_eq q user password host port encode :
+  gen_make_netloc q user password host port encode = make_netloc q user password host port encode.
+Proof.
+  unfold gen_make_netloc, make_netloc.
+  destruct host as [h|]; [|reflexivity].
+  destruct port as [pt|], user as [[|c r]|], password as [w|], encode; cbn [negb str_eqb andb]; cbv zeta;
+    try reflexivity; try (destruct (q (c :: r)); reflexivity).
+Qed.
